@@ -4,4 +4,12 @@ from pyvc.spec import *   # noqa
 
 
 def declare(spec):
-    pass
+
+    # ---- methods of opaque library objects (futures, streams ...) reached through a dynamic value
+    spec.add(Contract('$method.exception', params={'self': VAL}, ret=VAL, trusted=True, modifies=[],
+                      ensures=["ufn('fut_exc', VAL, self) == result"],
+                      note='T-TORNADO Future.exception(): pure observer'))
+    spec.add(Contract('$method.result', params={'self': VAL}, ret=VAL, trusted=True, modifies=[],
+                      raises={'*': ["not is_none(ufn('fut_exc', VAL, self))"]},
+                      ensures=["is_none(ufn('fut_exc', VAL, self))", "ufn('fut_res', VAL, self) == result"],
+                      note='T-TORNADO Future.result(): returns the result or re-raises the exception'))
